@@ -31,6 +31,7 @@ RULE = (
     "long-lived Checker; each step checks a program from a pool (repeats allowed) and compares its render with the "
     "fresh-checker baseline. Non-trivial = program whose render has a message listing >=2 names or a union of >=2 "
     "members (distinct by source)."
+    ' Templates include `freed-signature` (nested unannotated defs whose signatures die during the check followed by decorated unannotated functions).'
 )
 ASSUMPTIONS = [
     "object addresses (0x...) and the random module names of in-memory test modules are normalised before comparing",
